@@ -917,9 +917,16 @@ pub fn locate(tag: &str, d: &[u8], rng: &mut Rng) -> Vec<Field> {
                                 // costs 65536 per 8 bytes of table (endCode[], pad, startCode[]
                                 // are adjacent; idRangeOffset[] zeroed by a second variant)
                                 if seg >= 2 && seg <= 8192 {
+                                    // (at most 48 wide segments - 3 M mappings - the others
+                                    // keep their end code: the point is the shape, not seconds
+                                    // of hash map insertions per run)
                                     let mut b = Vec::with_capacity(2 * sx2 + 2);
-                                    for _ in 0..seg {
-                                        b.extend_from_slice(&[0xFF, 0xFF]);
+                                    for k in 0..seg {
+                                        if k < 48 {
+                                            b.extend_from_slice(&[0xFF, 0xFF]);
+                                        } else {
+                                            b.extend_from_slice(&d[so + 14 + 2 * k..so + 16 + 2 * k]);
+                                        }
                                     }
                                     b.extend_from_slice(&[0, 0]);
                                     b.resize(2 * sx2 + 2, 0);
